@@ -104,7 +104,7 @@ func valueMenu() []val {
 		"110101199003074514", "aaaa", "hello world", "a b", " a", "a ", "中文 a",
 		"1 2 3", "a b", " a", "a. ", "x a", "a ", "Mr. x", "1,2", "a /",
 		"ab#cd", "#", "a?b", "?x#", "x#y?z", "http://h/p?q#f",
-		"1+1", "+8613800138000", "100%", "a%41", "%", "+", "a+b%2Bc", "1 1", "aA", "%%", "1%2B1"} {
+		"ab;cd", "a;b", ";", "1;2;3", "a;", ";a", "k;j", "a:b", "a|b", "a~b", "a!b*c(d)", "a'b", "a@b", "a,b;c", "1+1", "+8613800138000", "100%", "a%41", "%", "+", "a+b%2Bc", "1 1", "aA", "%%", "1%2B1"} {
 		out = append(out, val{fmt.Sprintf("%q", s), rv(s)})
 	}
 	return out
@@ -184,6 +184,7 @@ func carriers() []carrierFn {
 		{"url-middle-raw", strV, u(func(v string) string { return "http://h/p?a=1&k=" + v + "&z=zz" })},
 		{"url-last-raw", strV, u(func(v string) string { return "http://h/p?a=1&z=zz&k=" + v })},
 		{"url-value-escaped", strEnc, u(func(v string) string { return "http://h/p?a=1&k=" + url.QueryEscape(v) + "&z=2" })},
+		{"url-only-parameter-escaped", strEnc, u(func(v string) string { return "http://h/p?k=" + url.QueryEscape(v) })},
 		{"url-value-pathescaped", strV, u(func(v string) string { return "http://h/p?k=" + url.PathEscape(v) })},
 		{"url-whole-escaped", strEnc, u(func(v string) string { return url.QueryEscape("http://h/p?a=1&k=" + v) })},
 	}
